@@ -31,7 +31,7 @@ def bounds(tier):
     return {
         "H02a": "1..3 entries; type over the four entry types; service/instance 16-bit, major 8-bit, TTL 24-bit, minor 32-bit or counter(4)+eventgroup(16), reboot/unicast flags, unknown flag bits 0..63: all symbolic; option runs from 4 concrete layouts (none / shared / overlapping / disjoint); SOME/IP session id symbolic",
         "H02b": "one assign_option_index step from an arbitrary shared array (length <= %d) with two runs (length <= %d each) over an alphabet of 3 option values" % ((4, 3) if tier == "thorough" else (3, 2)),
-        "H02c": "run lengths {0,1,14,15,16,17} in either run position; shared arrays of 250..300 distinct options; each numeric field symbolic over [0, 2*max]",
+        "H02c": "run lengths {0,1,14,15,16,17} in either run position; shared arrays of 250..300 distinct options; arrays of 20..254 options followed by an entry re-using options from the start / middle / end; each numeric field symbolic over [0, 2*max]",
         "H02d": "every option kind: symbolic port / protocol number (TCP, UDP, unknown) / priority / weight / address bytes; unknown option types 0..255 with <= 4 symbolic payload bytes; configuration items with symbolic ASCII keys/values of length <= 3, '=' inside values, value-less keys, item lengths 254..256",
         "H02e": "send_sd -> bytes at transport.sendto -> peer datagram_received -> entries seen by sd_message_received, 1..2 entries of every type with options",
     }
@@ -59,6 +59,9 @@ def cases(tier, seed):
         out.append({"h": "H02c", "kind": "runs", "r1": a, "r2": b})
     for n in (250, 254, 255, 256, 257, 300):
         out.append({"h": "H02c", "kind": "array", "n": n, "_w": 6})
+    for n in (20, 31, 32, 33, 40, 64, 254):
+        for where in ("first", "mid", "last"):
+            out.append({"h": "H02c", "kind": "reuse", "n": n, "where": where, "_w": 2})
     for fld in ("service_id", "instance_id", "major_version", "ttl", "minver", "counter_eg", "flags_unknown"):
         out.append({"h": "H02c", "kind": "field", "field": fld})
     for kind in ("v4ep", "v4mc", "v4sd", "v6ep", "v6mc", "v6sd", "loadbal", "unknown0", "unknown2", "unknown4"):
@@ -180,6 +183,15 @@ def h02c(E, M, case):
         runs = (tuple(O[:r1]), tuple(O[20 : 20 + r2]))
         ents = [hdr.SOMEIPSDEntry(hdr.SOMEIPSDEntryType.OfferService, 1, 2, 3, 4, 5, options_1=runs[0], options_2=runs[1])]
         representable = r1 <= 15 and r2 <= 15
+    elif kind == "reuse":
+        # n distinct options, then one entry whose runs repeat options already in the array
+        n = case["n"]
+        ents = []
+        for k in range(0, n, 15):
+            ents.append(hdr.SOMEIPSDEntry(hdr.SOMEIPSDEntryType.OfferService, 1, len(ents), 3, 4, 5, options_1=tuple(O[k : min(n, k + 15)])))
+        p0 = {"first": 0, "mid": n // 2, "last": n - 2}[case["where"]]
+        ents.append(hdr.SOMEIPSDEntry(hdr.SOMEIPSDEntryType.OfferService, 7, 7, 3, 4, 5, options_1=tuple(O[p0 : p0 + 2]), options_2=(O[n - 1],)))
+        representable = True
     elif kind == "array":
         n = case["n"]
         # n distinct options, referenced by entries with runs of <= 15
